@@ -1,5 +1,8 @@
 use crate::runner::Tier;
 
+pub mod c01;
+pub mod c02;
+pub mod c03;
 pub mod c05;
 
 pub struct Ctx {
@@ -30,6 +33,9 @@ pub fn dispatch(prop: &str, tier: Tier, seed: u64, only: Option<usize>, args: &[
         args: args.to_vec(),
     };
     match prop {
+        "C01" => c01::run(&ctx),
+        "C02" => c02::run(&ctx),
+        "C03" => c03::run(&ctx),
         "C05" => c05::run(&ctx),
         _ => {
             eprintln!("unknown property {prop}");
